@@ -7,7 +7,7 @@
 //! what a reset loses ("configuration-validity bits"; sleep retains registers on this family), and
 //! a lying mode for C18. Not modelled: FSK page, RF, frequency hopping.
 
-use crate::world::Env;
+use crate::world::{ChipRf, Env};
 
 pub const REG_FIFO: u8 = 0x00;
 pub const REG_OP_MODE: u8 = 0x01;
@@ -136,11 +136,14 @@ pub struct Chip127x {
     pub valid: u32,
     pub tx_log: Vec<TxRecord>,
     pub resets: u32,
+    /// what the chip was programmed with at each TX / RX start (full-stack configuration of the MAC world)
+    pub tx_rf_log: Vec<(ChipRf, Vec<u8>)>,
+    pub rx_rf_log: Vec<ChipRf>,
 }
 
 impl Chip127x {
     pub fn new(is_1272: bool, tcxo: bool) -> Self {
-        let mut c = Chip127x { is_1272, tcxo, regs: [0; 128], fifo: [0; 256], valid: 0, tx_log: vec![], resets: 0 };
+        let mut c = Chip127x { is_1272, tcxo, regs: [0; 128], fifo: [0; 256], valid: 0, tx_log: vec![], resets: 0, tx_rf_log: vec![], rx_rf_log: vec![] };
         c.por();
         c
     }
@@ -231,6 +234,65 @@ impl Chip127x {
 
     pub fn in_standby(&self) -> bool {
         self.mode() == Mode::Standby
+    }
+
+    /// Decode what the chip is programmed with right now (SX1276/77/78/79 and SX1272/73 datasheets: RegFrf,
+    /// RegModemConfig1/2, RegPaConfig, RegPaDac, RegInvertIQ, RegPreamble).
+    pub fn rf_now(&self) -> ChipRf {
+        let mc1 = self.r(REG_MODEM_CONFIG1);
+        let mc2 = self.r(REG_MODEM_CONFIG2);
+        let (bw_khz, cr, crc_on) = if self.is_1272 {
+            (
+                match mc1 >> 6 {
+                    0 => 125,
+                    1 => 250,
+                    2 => 500,
+                    _ => 0,
+                },
+                4 + ((mc1 >> 3) & 7),
+                mc1 & 0x02 != 0,
+            )
+        } else {
+            (
+                match mc1 >> 4 {
+                    7 => 125,
+                    8 => 250,
+                    9 => 500,
+                    6 => 62,
+                    5 => 41,
+                    4 => 31,
+                    3 => 20,
+                    2 => 15,
+                    1 => 10,
+                    0 => 7,
+                    _ => 0,
+                },
+                4 + ((mc1 >> 1) & 7),
+                mc2 & 0x04 != 0,
+            )
+        };
+        let pa = self.r(REG_PA_CONFIG);
+        let op = (pa & 0x0F) as i16;
+        let dac20 = self.r(if self.is_1272 { 0x5A } else { 0x4D }) & 0x07 == 0x07;
+        let power_dbm = if pa & 0x80 != 0 {
+            Some(if dac20 { 5 + op } else { 2 + op })
+        } else if self.is_1272 {
+            Some(op - 1)
+        } else {
+            // Pout = Pmax - (15 - OutputPower), Pmax = 10.8 + 0.6 * MaxPower; rounded up to whole dBm
+            let tenths = 108 + 6 * ((pa >> 4) & 7) as i16 - 150 + 10 * op;
+            Some((tenths + 9).div_euclid(10))
+        };
+        ChipRf {
+            freq_hz: ((self.frf() as u64 * 32_000_000) >> 19) as u32,
+            sf: mc2 >> 4,
+            bw_khz,
+            cr,
+            iq_inverted: self.r(0x33) & 0x40 != 0,
+            crc_on,
+            preamble: u16::from_be_bytes([self.r(REG_PREAMBLE_MSB), self.r(REG_PREAMBLE_LSB)]),
+            power_dbm,
+        }
     }
 
     pub fn frf(&self) -> u32 {
@@ -326,16 +388,19 @@ impl Chip127x {
                             self.check_configured(env, "tx", V_LORA | V_SYNC | V_TX_BASE | V_FRF | V_MC1 | V_MC2 | V_PREAMBLE | V_PAYLEN | V_PA_CONFIG | V_PA_RAMP | V_DIOMAP | V_IRQ_MASK | V_FIFO, 1);
                             let base = self.r(REG_FIFO_TX_BASE);
                             let len = self.r(REG_PAYLOAD_LENGTH);
-                            let payload = (0..len).map(|i| self.fifo[base.wrapping_add(i) as usize]).collect();
+                            let payload: Vec<u8> = (0..len).map(|i| self.fifo[base.wrapping_add(i) as usize]).collect();
+                            self.tx_rf_log.push((self.rf_now(), payload.clone()));
                             self.tx_log.push(TxRecord { frf: self.frf(), payload });
                         }
                         5 => {
                             self.set(REG_OP_MODE, newv);
                             self.check_configured(env, "rx", V_LORA | V_SYNC | V_RX_BASE | V_FRF | V_MC1 | V_MC2 | V_PREAMBLE | V_DIOMAP | V_IRQ_MASK, 0);
+                            self.rx_rf_log.push(self.rf_now());
                         }
                         6 => {
                             self.set(REG_OP_MODE, newv);
                             self.check_configured(env, "rx", V_LORA | V_SYNC | V_RX_BASE | V_FRF | V_MC1 | V_MC2 | V_PREAMBLE | V_SYMB_TIMEOUT | V_DIOMAP | V_IRQ_MASK, 0);
+                            self.rx_rf_log.push(self.rf_now());
                         }
                         7 => {
                             self.set(REG_OP_MODE, newv);
